@@ -122,8 +122,9 @@ def run(chk, fb, tier):
         C14.rule_chain(chk, fb, re_, h, C14.OC.PASSWORD_HASH_CHAIN, "password-hash")
         # little-endian UTF-16: to_le_bytes on encode_utf16 units
         b = fb.mir[h]
-        le = any(t.get("fn", "").endswith("to_le_bytes") for _, t in fb.calls_in(b)) and any(t.get("fn", "").endswith("encode_utf16") for _, t in fb.calls_in(b))
-        chk.ob(re_, "password-hash:utf16le", le, where=fb.loc(h), detail="password is hashed as UTF-16 little-endian code units: %s" % le)
+        pw = next((i for i in range(1, b["argc"] + 1) if fb.ty(b["locals"][i]["t"]) == "&str" and b["locals"][i].get("n") == "password"), 1)
+        le, chars = C14.utf16le_encoded(fb, h, pw)
+        chk.ob(re_, "password-hash:utf16le", le and not chars, where=fb.loc(h), detail="password is hashed as UTF-16 little-endian code units (encode_utf16 + to_le_bytes, here or in a helper): %s; per-char conversion: %s" % (le, chars))
     chk.assume("sha2 implements SHA-512; base64 STANDARD engine is RFC 4648 base64")
     chk.note("not decided: the hash value itself; persistence through save/reload is the reader/writer symmetry rule of C04.b/C06.b")
 
